@@ -29,10 +29,6 @@ func (valenc errorEncoder) Encode(enc *Encoder, v interface{}) {
 func (errorEncoder) Write(enc *Encoder, v interface{}) {
 	switch v := v.(type) {
 	case error:
-		if rv := reflect.ValueOf(v); rv.Kind() == reflect.Ptr && rv.IsNil() {
-			enc.WriteNil() // a typed nil pointer: its Error method would dereference it
-			return
-		}
 		enc.WriteError(v)
 	case *error:
 		if v == nil || *v == nil {
@@ -53,12 +49,20 @@ func (enc *Encoder) WriteError(e error) {
 		enc.WriteNil()
 		return
 	}
+	var s string
 	if rv := reflect.ValueOf(e); rv.Kind() == reflect.Ptr && rv.IsNil() {
-		enc.WriteNil() // a typed nil pointer: its Error method would dereference it
-		return
+		// a typed nil pointer is an error for Go (e != nil): it is written as one when its
+		// Error method can speak for a nil receiver, and as null when that method
+		// dereferences the receiver
+		var ok bool
+		if s, ok = errorOfNilReceiver(e); !ok {
+			enc.WriteNil()
+			return
+		}
+	} else {
+		s = e.Error()
 	}
 	enc.AddReferenceCount(1)
-	s := e.Error()
 	if !utf8.ValidString(s) {
 		// the error tag is followed by a string: a message that is not text cannot fall
 		// back to the bytes form, its invalid sequences are replaced instead
@@ -66,6 +70,15 @@ func (enc *Encoder) WriteError(e error) {
 	}
 	enc.buf = append(enc.buf, TagError)
 	enc.buf = appendString(enc.buf, s, utf16Length(s))
+}
+
+func errorOfNilReceiver(e error) (s string, ok bool) {
+	defer func() {
+		if recover() != nil {
+			s, ok = "", false
+		}
+	}()
+	return e.Error(), true
 }
 
 func init() {
